@@ -112,6 +112,21 @@ PROPS["C12"] = dict(
     thorough=dict(shards=16, checks=130, timeout_s=5400),
 )
 
+PROPS["C09"] = dict(
+    pkg="props/c09", level="fault_enumeration", engine="E-pos", design_ref="§4 C09",
+    technique="PBT-generated tables (rapid) x exhaustive data-file damage: every byte x 7 replacement values, every truncation length, adjacent-record swaps; both checking modes",
+    rule=("evaluation = one damaged copy of data.rio of a generated table (2..20 adversarial keys; values nil/empty/1..200 bytes incl. leading 0x00 and marker bytes; each data "
+          "compression type) opened in one of two modes (verify-on-load default; SkipHashCheckOnLoad+EnableHashCheckOnReads) and read through Get of every key, Scan and ScanRange: "
+          "every byte offset x {bit0 flipped, bit7 flipped, 0x00, 0xff, 0x91, 0x8d, 0x4c}, every truncation length, swaps of adjacent equal-length records; all damaged copies are "
+          "non-trivial (each differs from the written file); distinct = (case hash, damage, mode)"),
+    level_text=("Single-fault damage space of the data file enumerated exhaustively per generated table under both verification modes; the oracle is 'error, or the written value' per key."),
+    level_note="values written empty/nil are only required to stay empty without compression (zero checksum by format design, as the property states); multi-byte damage limited to truncation and swaps",
+    assumptions=COMMON_ASSUME + ["tables are materialised on tmpfs (/dev/shm) when present"],
+    require_labels=["byte:file-header", "byte:record-header", "byte:payload", "truncation", "swap", "dcomp=0", "dcomp=1", "dcomp=2", "dcomp=3"],
+    quick=dict(shards=16, checks=3, shrink_s=30),
+    thorough=dict(shards=16, checks=100, timeout_s=5400),
+)
+
 NOT_APPLICABLE = {}
 
 
